@@ -3,12 +3,16 @@ package props
 import (
 	"bytes"
 	"fmt"
+	"io"
 	"net/http"
+	"net/http/httptest"
 	"sort"
 	"strconv"
 	"strings"
+	"time"
 
 	"github.com/vicanso/pike/config"
+	"github.com/vicanso/pike/server"
 
 	"pikemc/env"
 	"pikemc/vsched"
@@ -130,6 +134,7 @@ func init() {
 	Register("C05", func(c *Ctx) {
 		c.Out.Rule = "enumeration through the full handler chain: origin encoding {identity,gzip,br,lz4,zst,snz} x 9 bodies (empty, 1 B, around the 1 KiB threshold, incompressible 4 KiB, 11x and 100x compressible, 64 KiB) x content type {text/plain, application/json, image/png, absent} x client Accept-Encoding (9 values) on the paths {fetching request, later hits, hit restored from the store after a restart, hit-for-pass pass-through, POST}; then one factor at a time: status codes, min-length, filter, levels, header sets; plus every bounded schedule of two identity clients hitting compressed-only entries (a scheduling point precedes the response write) and of a fetcher with a waiter; oracle: decoded body byte-identical, Content-Encoding accepted or absent, Content-Length consistent, status and end-to-end headers equal"
 		c.Out.Assume = []string{"reference codecs decode what the client receives", "Accept-Encoding is a plain list of codings"}
+		c05RealOriginFaults(c)
 		bodies := c05Bodies()
 		var bnames []string
 		for k := range bodies {
@@ -373,4 +378,107 @@ func init() {
 		c.RunSched(mk("conc-identity-hits-on-gzip-origin", true, "gzip"))
 		c.RunSched(mk("conc-fetch-wait-br-origin", false, "br"))
 	})
+}
+
+// c05RealOriginFaults: pike listening on a real socket (so that requests carry what net/http's server puts into
+// their context) in front of a real loopback origin whose answers are cut short in enumerated ways. A response
+// that reaches the client as a complete 200 must carry the origin's complete body — on the fetching request,
+// on repeats and on hits.
+func c05RealOriginFaults(c *Ctx) {
+	if !c.Want("real-origin-faults") || c.Shard != 0 {
+		return
+	}
+	st := c.Stat("real-origin-faults", "enumeration")
+	full := []byte(c20Payload(4000))
+	type beh struct {
+		name string
+		h    func(w http.ResponseWriter, r *http.Request)
+	}
+	hijackAfter := func(n int, declare int) func(w http.ResponseWriter, r *http.Request) {
+		return func(w http.ResponseWriter, r *http.Request) {
+			conn, buf, err := w.(http.Hijacker).Hijack()
+			if err != nil {
+				return
+			}
+			if declare >= 0 {
+				fmt.Fprintf(buf, "HTTP/1.1 200 OK\r\nContent-Type: text/plain\r\nCache-Control: max-age=600\r\nContent-Length: %d\r\n\r\n", declare)
+				buf.Write(full[:n])
+			}
+			buf.Flush()
+			conn.Close()
+		}
+	}
+	behs := []beh{
+		{"complete", func(w http.ResponseWriter, r *http.Request) {
+			w.Header().Set("Content-Type", "text/plain")
+			w.Header().Set("Cache-Control", "max-age=600")
+			w.Write(full)
+		}},
+		{"closed-before-any-byte", hijackAfter(0, -1)},
+		{"closed-after-headers", hijackAfter(0, len(full))},
+		{"closed-mid-body", hijackAfter(1500, len(full))},
+		{"closed-one-byte-short", hijackAfter(len(full)-1, len(full))},
+		{"chunked-cut", func(w http.ResponseWriter, r *http.Request) {
+			conn, buf, err := w.(http.Hijacker).Hijack()
+			if err != nil {
+				return
+			}
+			fmt.Fprintf(buf, "HTTP/1.1 200 OK\r\nContent-Type: text/plain\r\nCache-Control: max-age=600\r\nTransfer-Encoding: chunked\r\n\r\n%x\r\n", 1500)
+			buf.Write(full[:1500])
+			buf.WriteString("\r\n")
+			buf.Flush()
+			conn.Close()
+		}},
+	}
+	st.Bounds = fmt.Sprintf("%d origin behaviours (complete; connection closed before any byte / after the headers / mid-body / one byte short / inside a chunked body) x location with and without a proxy timeout x 3 sequential GETs over TCP to pike's own listener", len(behs))
+	for _, timeout := range []string{"3s", ""} {
+		mux := http.NewServeMux()
+		for _, b := range behs {
+			mux.HandleFunc("/"+b.name, b.h)
+		}
+		origin := httptest.NewUnstartedServer(mux)
+		origin.Config.SetKeepAlivesEnabled(false)
+		origin.Start()
+		cfg := &config.PikeConfig{
+			Caches:    []config.CacheConfig{{Name: "c1", Size: 100, HitForPass: "5m"}},
+			Upstreams: []config.UpstreamConfig{{Name: "u", Servers: []config.UpstreamServerConfig{{Addr: origin.URL}}}},
+			Locations: []config.LocationConfig{{Name: "l", Upstream: "u", ProxyTimeout: timeout}},
+			Servers:   []config.ServerConfig{{Addr: "127.0.0.1:0", Locations: []string{"l"}, Cache: "c1"}},
+		}
+		env.Silence()
+		env.FreshAll()
+		procEnv = nil
+		if err := env.Apply(cfg); err != nil {
+			c.Violation("real-origin-faults", "harness-apply", err.Error(), nil, nil, nil)
+			origin.Close()
+			continue
+		}
+		listen := server.Get("127.0.0.1:0").GetListenAddr()
+		client := &http.Client{Timeout: 10 * time.Second, Transport: &http.Transport{DisableKeepAlives: true, DisableCompression: true}}
+		for _, b := range behs {
+			for i := 0; i < 3; i++ {
+				st.Execs++
+				resp, err := client.Get("http://" + listen + "/" + b.name)
+				if err != nil {
+					continue // the client saw a failed exchange: nothing was delivered as the resource
+				}
+				body, rerr := io.ReadAll(resp.Body)
+				resp.Body.Close()
+				kase := map[string]interface{}{"origin": b.name, "proxy_timeout": timeout, "request": i}
+				if b.name == "complete" {
+					if resp.StatusCode != 200 || rerr != nil || !bytes.Equal(body, full) {
+						c.Violation("real-origin-faults", "complete-answer-not-delivered", fmt.Sprintf("request %d: status %d, %d bytes, read error %v", i, resp.StatusCode, len(body), rerr), nil, kase, nil)
+					}
+					continue
+				}
+				if resp.StatusCode == 200 && rerr == nil {
+					c.Violation("real-origin-faults", "cut-short-answer-delivered-as-complete", fmt.Sprintf("origin %s (proxy timeout %q): request %d was answered 200 (%s) with a well-formed body of %d bytes; the origin's body has %d and was never delivered completely", b.name, timeout, i, resp.Header.Get("X-Status"), len(body), len(full)), nil, kase, nil)
+				}
+			}
+		}
+		env.FreshAll()
+		origin.Close()
+	}
+	st.States, st.Transitions, st.Nontrivial = st.Execs, st.Execs, st.Execs
+	st.NOutcomes = int(st.Execs)
 }
